@@ -19,8 +19,11 @@ cluster_enum : every supported (cell type, size) x a fixed set of rotations,
           positions and radii, enumerated completely.
 pp      : generate_random_points_in_circle / _in_rectangle.
 """
+import contextlib
 import itertools
 import math
+import os
+import signal
 
 import numpy as np
 from hypothesis import strategies as st
@@ -75,6 +78,7 @@ ASSUMPTIONS = [
 ]
 
 QUICK_BUDGET_S = 120
+THOROUGH_BUDGET_S = 3000
 RTOL = 1e-9          # length tolerance relative to R + |pos|
 RATIO_RTOL = 1e-12   # linearity in the ratio, distance matrices, min dist
 
@@ -229,13 +233,13 @@ def _s_pp(tier):
 
 
 PARTS = [
-    Part("contain", _s_contain, quick=4000, thorough=300000, quick_shards=8),
-    Part("border", _s_border, quick=2400, thorough=200000, quick_shards=8),
-    Part("users", _s_users, quick=1200, thorough=80000, quick_shards=8),
-    Part("cluster", _s_cluster, quick=480, thorough=30000, quick_shards=8),
+    Part("contain", _s_contain, quick=4000, thorough=200000, quick_shards=8),
+    Part("border", _s_border, quick=2400, thorough=120000, quick_shards=8),
+    Part("users", _s_users, quick=1200, thorough=50000, quick_shards=8),
+    Part("cluster", _s_cluster, quick=480, thorough=20000, quick_shards=8),
     Part("cluster_enum", enumerate=_enum_cluster, exhaustive=True,
          quick_shards=8),
-    Part("pp", _s_pp, quick=400, thorough=40000, quick_shards=4),
+    Part("pp", _s_pp, quick=400, thorough=30000, quick_shards=4),
 ]
 
 
@@ -593,6 +597,32 @@ def _check_border(case, ctx):
 # ----------------------------------------------------------------------------
 # part: random users
 # ----------------------------------------------------------------------------
+PLACEMENT_LIMIT_S = float(os.environ.get("VERIF_C19_PLACEMENT_LIMIT_S", "120"))
+# (a placement takes milliseconds)
+
+
+@contextlib.contextmanager
+def _watchdog(tags):
+    """Safety net only: the rejection loop of add_random_user has no bound;
+    if a change to the library makes it spin forever the case is reported as
+    a violation instead of hanging the run."""
+    def on_alarm(signum, frame):
+        raise Violation("user_placement_does_not_terminate",
+                        "random user placement still running after %g s" %
+                        PLACEMENT_LIMIT_S, tags)
+    try:
+        old = signal.signal(signal.SIGALRM, on_alarm)
+    except ValueError:          # not in the main thread: no watchdog
+        yield
+        return
+    signal.setitimer(signal.ITIMER_REAL, PLACEMENT_LIMIT_S)
+    try:
+        yield
+    finally:
+        signal.setitimer(signal.ITIMER_REAL, 0)
+        signal.signal(signal.SIGALRM, old)
+
+
 def _check_user_positions(ctx, users, centre, rad, ratio, poly, L, tags,
                           unrot_poly=None):
     """min distance first (exact requirement), then inside the polygon"""
@@ -643,16 +673,17 @@ def _check_users(case, ctx):
     L = R + abs(pos)
     np.random.seed(int(case["seed"]))
     sector = int(case["sector"])
-    if mode == "one":
-        for _ in range(n):
-            obj.add_random_user(None, ratio)
-    elif mode == "many":
-        obj.add_random_users(n, None, ratio)
-    elif mode == "sector":
-        for _ in range(n):
-            obj.add_random_user_in_sector(sector, None, ratio)
-    else:
-        obj.add_random_users_in_sector(n, sector, None, ratio)
+    with _watchdog(tags):
+        if mode == "one":
+            for _ in range(n):
+                obj.add_random_user(None, ratio)
+        elif mode == "many":
+            obj.add_random_users(n, None, ratio)
+        elif mode == "sector":
+            for _ in range(n):
+                obj.add_random_user_in_sector(sector, None, ratio)
+        else:
+            obj.add_random_users_in_sector(n, sector, None, ratio)
     users = list(obj.users)
     if len(users) != n or obj.num_users != n:
         raise Violation("user_count", "%d users after adding %d" %
@@ -769,8 +800,9 @@ def _check_cluster(case, ctx):
     np.random.seed(int(case["seed"]))
     nb = [c.num_users for c in cells]
     if counts:
-        cl.add_random_users(list(range(1, len(counts) + 1)), counts, None,
-                            ratio)
+        with _watchdog(tags):
+            cl.add_random_users(list(range(1, len(counts) + 1)), counts,
+                                None, ratio)
     nuser = sum(counts) + sum(nb)
     ctx.label("cluster:users=0" if nuser == 0 else "cluster:users>0")
     allu = []
